@@ -207,7 +207,11 @@ def tr (be : Backend) : RExpr → Expr
     | .verilog => .cast w (tr be e)
     | .yosys =>
       if e.width = w then tr be e
-      else if e.width > w then .range (tr be e) (.num (w - 1)) (.num 0)
+      else if e.width > w then
+        -- a part selection only of a plain signal name; otherwise the size cast visit_Truncate emits (fix b310bc9)
+        match e with
+        | .sig _ _ | .field _ _ _ | .index _ _ _ | .tmpvar _ _ true => .range (tr be e) (.num (w - 1)) (.num 0)
+        | _ => .cast w (tr be e)
       else zextTpl (w - e.width) (tr be e)
   | .sig x _ => .ident x                                        -- visit_Attribute (Base)
   | .const x w v =>                                             -- visit_Attribute, rt.Const
